@@ -31,6 +31,9 @@ type c04Case struct {
 	// one: the entity is issued by a root generated before it on a filesystem whose writes take 1.1 s,
 	// so more than a second of wall-clock time lies between reading the configuration and building it
 	Slow bool `json:"slow,omitempty"`
+	// edit: the entity is first generated with validity V (profile PV), then the block is edited to V2 / PV2 and a default run follows
+	V2  *refcfg.Validity `json:"v2,omitempty"`
+	PV2 *refcfg.Validity `json:"pv2,omitempty"`
 }
 
 var c04Zones = []string{"UTC", "Europe/Berlin", "America/New_York", "Asia/Kolkata", "Pacific/Kiritimati", "Pacific/Pago_Pago", "Australia/Lord_Howe", "America/Havana"}
@@ -61,6 +64,22 @@ func c04Enumerate(tier string, yield func(any)) {
 	for _, z := range zs {
 		for _, s := range starts {
 			yield(&c04Case{Kind: "dur", Zone: z, Start: s})
+		}
+	}
+	// the validity block is edited after a first run: the certificate of the next default run carries the new period
+	{
+		shapes := [][2]*refcfg.Validity{
+			{{Until: "2031-03-17"}, {Until: "2033-11-05"}},
+			{{Duration: "2y"}, {Duration: "3y1m"}},
+			{{From: "2021-02-03", Until: "2031-03-17"}, {From: "2021-02-03", Until: "2033-11-05"}},
+			{{From: "2021-02-03", Duration: "2y"}, {From: "2022-04-05", Duration: "2y"}},
+			{{Until: "2031-03-17"}, {Duration: "4y"}},
+			{nil, {Until: "2044-04-04"}},
+			{{Duration: "4y"}, nil},
+		}
+		for _, sh := range shapes {
+			yield(&c04Case{Kind: "edit", Zone: "UTC", V: sh[0], V2: sh[1]})
+			yield(&c04Case{Kind: "edit", Zone: "Europe/Berlin", PV: sh[0], PV2: sh[1], HasProf: true})
 		}
 	}
 	// time passing inside a run: relative periods on a slow filesystem
@@ -106,6 +125,8 @@ func c04Exec(x *engine.Ctx, cc any) {
 	}
 	time.Local = loc
 	switch c.Kind {
+	case "edit":
+		c04Edit(x, c)
 	case "one":
 		c04OneSlow(x, c.Zone, c.V, c.PV, c.HasProf, c.Slow)
 	case "year":
@@ -233,6 +254,60 @@ func c04OneSlow(x *engine.Ctx, zone string, v, pv *refcfg.Validity, hasProf, slo
 	x.Outcome("compared " + strings.SplitN(feature, " ", 2)[0])
 }
 
+// c04Edit: first run with V/PV, then the validity block (of the certificate or of its profile) is edited and
+// the default run must issue a certificate for the new block.
+func c04Edit(x *engine.Ctx, c *c04Case) {
+	cfg := &refcfg.CertCfg{Path: "ent.yaml", Subject: "CN=validity", KeyAlg: "P-224", Validity: c.V}
+	d := &Dir{Certs: []*refcfg.CertCfg{cfg}}
+	var prof *refcfg.ProfileCfg
+	if c.HasProf {
+		prof = &refcfg.ProfileCfg{Path: "prof.yaml", Name: "p", Validity: c.PV, Exts: []refcfg.Ext{{Kind: refcfg.KOCSP}}}
+		d.Profiles = append(d.Profiles, prof)
+		cfg.Profile = "p"
+	}
+	feat := fmt.Sprintf("edit %s -> %s / profile %s -> %s", c04Text(c.V), c04Text(c.V2), c04Text(c.PV), c04Text(c.PV2))
+	x.Nontrivial(c.Zone + feat)
+	g := Generate(d, func(w *simfs.World) { w.Put("ent.pem", FixtureKeyPEM("P-224-0")) }, drive.Default)
+	if !g.Res.OK() {
+		x.Violation("C04/edit/first-run-failed", fmt.Sprintf("%s: %v %s", feat, g.Res.Err(), g.Res.Panic))
+		return
+	}
+	if c.HasProf {
+		prof.Validity = c.PV2
+		g.W.Put(prof.Path, prof.YAML())
+	} else {
+		cfg.Validity = c.V2
+		g.W.Put(cfg.Path, cfg.YAML())
+	}
+	g2 := &GenResult{W: g.W, Before: g.W.Clone()}
+	g2.RunStart = time.Now().Unix()
+	g2.Res = drive.Run(g.W, drive.Default, nil)
+	g2.RunEnd = time.Now().Unix()
+	if !g2.Res.OK() {
+		x.Violation("C04/edit/second-run-failed", fmt.Sprintf("%s: %v %s", feat, g2.Res.Err(), g2.Res.Panic))
+		return
+	}
+	in := "own"
+	if c.HasProf {
+		in = "profile"
+	}
+	if !g2.Res.Planned("ent") {
+		x.Violation("C04/edit/"+in+"-validity-edit-not-issued", fmt.Sprintf("%s: the default run after the edit issues nothing (plan %v), so the certificate keeps the old period", feat, g2.Res.PlanAliases()))
+		return
+	}
+	diffs, _, err := g2.CompareEntity(d, "ent", "")
+	if err != nil {
+		x.Violation("C04/edit/no-certificate", err.Error())
+		return
+	}
+	for _, df := range diffs {
+		if df.Owner == "C04" {
+			x.Violation(strings.Replace(df.Class, "C04/", "C04/edit/", 1), fmt.Sprintf("%s: %s", feat, df.Detail))
+		}
+	}
+	x.Outcome("edited validity compared")
+}
+
 func c04MaskName(v *refcfg.Validity) string {
 	if v == nil {
 		return "none"
@@ -254,7 +329,7 @@ func init() {
 	register(&engine.Check{
 		ID:          "C04",
 		Level:       "exploration",
-		Rule:        "every calendar date of the years {1950,1999,2000,2024,2049,2050,2100,2200} (quick) / of every year 1950..2200 in two zones (thorough) as `from` (with duration 1y) and as `until`, in 8 local time zones (UTC, Berlin, New York, Kolkata, Kiritimati +14, Pago Pago -11, Lord Howe 30-minute DST, Havana DST at midnight); duration grid y{-,0,1,5,25,100,010,08} x m{-,0,1,11,12,13,25,09,0012} x d{-,0,1,28,31,365,366,1000,0030,08} (leading zeros are decimal) from 12 month-end / leap-day start dates and from the run time; all 8 x (1+8) presence combinations of from/until/duration in certificate and profile. Each through a whole gopki run with an existing P-224 key; oracle = own proleptic-Gregorian arithmetic for local midnight and calendar addition, UTCTime/GeneralizedTime by year, inheritance rule. non-trivial = distinct (zone, block, profile block); and four relative shapes (duration only, nothing, profile duration, until only) for an entity issued after its root on a filesystem whose writes take 1.1 s, so that the reading of the configuration and the building of the certificate fall into different seconds (notAfter must still be notBefore plus the duration exactly)",
+		Rule:        "every calendar date of the years {1950,1999,2000,2024,2049,2050,2100,2200} (quick) / of every year 1950..2200 in two zones (thorough) as `from` (with duration 1y) and as `until`, in 8 local time zones (UTC, Berlin, New York, Kolkata, Kiritimati +14, Pago Pago -11, Lord Howe 30-minute DST, Havana DST at midnight); duration grid y{-,0,1,5,25,100,010,08} x m{-,0,1,11,12,13,25,09,0012} x d{-,0,1,28,31,365,366,1000,0030,08} (leading zeros are decimal) from 12 month-end / leap-day start dates and from the run time; all 8 x (1+8) presence combinations of from/until/duration in certificate and profile. Each through a whole gopki run with an existing P-224 key; oracle = own proleptic-Gregorian arithmetic for local midnight and calendar addition, UTCTime/GeneralizedTime by year, inheritance rule. non-trivial = distinct (zone, block, profile block); and four relative shapes (duration only, nothing, profile duration, until only) for an entity issued after its root on a filesystem whose writes take 1.1 s, so that the reading of the configuration and the building of the certificate fall into different seconds (notAfter must still be notBefore plus the duration exactly); and 14 edits of the validity block (own and inherited; until, duration, from+until, from+duration, shape changes) after a first run, followed by a default run whose certificate must carry the new period",
 		Bound:       map[string]string{"dates": "quick 8 years x 8 zones; thorough 1950-2200 x 2 zones + 8 years x 6 zones"},
 		Assumptions: []string{"the zone offset tables of Go's embedded tzdata are trusted; in a DST gap/overlap at local midnight either offset is accepted", "without `from`, notBefore must lie within the measured run interval +-1 s", "calendar-invalid dates are only required not to crash (C20)"},
 		Budget:      budgets(quickBudget, thoroughBudget),
